@@ -148,14 +148,16 @@ struct common : iface
 
     bool advertising() const { return ll->state_ == LL::state::advertising; }
 
-    // what was handed to the radio since the last call: `s <channel> <delay>` or `-`
+    // what was handed to the radio since the last call: `s <channel> <delay> t<advertising PDU type>` or `-`
     std::string sched()
     {
         if ( ll->advertised_data_.size() > seen && ll->advertising_response_ )
         {
             const auto& d = ll->advertised_data_.back();
             seen = ll->advertised_data_.size();
-            return "s " + std::to_string( d.channel ) + " " + std::to_string( d.transmision_time.usec() );
+            // + the type of the advertising PDU on air (lower 4 bits of the transmitted header)
+            return "s " + std::to_string( d.channel ) + " " + std::to_string( d.transmision_time.usec() )
+                + " t" + std::to_string( d.transmitted_data.empty() ? 15u : unsigned( d.transmitted_data[ 0 ] & 0x0f ) );
         }
         seen = ll->advertised_data_.size();
         return "-";
